@@ -10,9 +10,15 @@ NOTE_COMMON = ("Trusted: go/types and go/ssa (x/tools v0.50.0) construction for 
                "code; value-level clauses named there as 'not decided' are not covered.")
 
 claimed = {
+ "C01": dict(category="other",
+   text="Decides structural necessary conditions of root equality with the bridge contract: the leaf hash's byte layout, extracted symbolically from the SSA, equals the contract's getLeafValue encoding; append/rebuild orientation, level indexing, node hash and zero-hash recurrence follow the contract's convention; every Bridge event feeds the leaf {DepositCount, Hash()} of that same event before its row is stored; downloader field map; frontier sentinel / writer / rebuild discipline. Functional equality of the frontier algorithm with the contract's for every index is an induction over indices and is not decided.",
+   ref="4 C01", technique="static analysis: symbolic byte-layout extraction vs contract spec term, Merkle-step orientation rule, provenance and dominance on SSA"),
  "C02": dict(category="other",
    text="Decides the local gates and derivations that the gap-free certificate chain rests on, on every path of the code: send only behind a fresh !ExistPendingCerts; the status check fails closed on every error and for every certificate still open after refresh (boolean accumulator tracked path-sensitively); a single submission site; every producing return of the next-height/previous-LER and last-block/retry functions matched with its dominating branch facts against the case table; build-parameter provenance; retry keeps its first block and passes VerifyBuildParams; stored header fields. The global exactly-once-over-all-schedules statement is a protocol property over interleavings of five actors and is not decided, hence level 'other'.",
    ref="4 C02", technique="static analysis: SSA dominance with boolean/nil path facts, guarded-return case matching, provenance, who-may-call"),
+ "C03": dict(category="other",
+   text="Decides structural necessary conditions: the Agglayer-side exit leaf layout composed with the node's field map and metadata hashing equals the node's own leaf layout (sibling agreement); conversions are order-preserving over an ordered, bounded range query; new LER by highest deposit count (last bridge) or previous LER; certificate literal provenance; metadata arguments and codec slot agreement. Root values and range choice are not decided here.",
+   ref="4 C03", technique="static analysis: symbolic byte-layout extraction, field-map provenance, SQL token checks"),
  "C04": dict(category="other",
    text="Decides structural necessary conditions of reorg cleanliness: the schema of each store is computed from the embedded migrations and every synced table cascades from block(num); the single sql.Open enables foreign keys; every Reorg binds the block deletion and the rewind of every tree-typed field to the same tx and block number on every committing path; Reorg is atomic; the in-memory frontier is rewritten from the database on every successful rebuild. Observational equivalence of all queries for all histories is value-level and not decided; SQLite's cascade semantics are trusted.",
    ref="4 C04", technique="static analysis: DDL reader over embedded migrations, who-may-call, provenance and must-pass-through on SSA"),
@@ -28,6 +34,12 @@ claimed = {
  "C16": dict(category="other",
    text="Decides structural necessary conditions of the injected-GER index: the PP downloader fetches from its loop-carried cursor (the pinned tree fetched only the tip: fixed); watched topics are the ABI signatures of the events their handlers parse (oracle: the contract binding's ABI); handler and processor field maps; delete-by-GER only for removals, on the block's transaction; the lookup statement returns the minimum index >= X. FEP state polling and liveness are not decided.",
    ref="4 C16", technique="static analysis: cursor (loop-carried Phi) discipline, ABI cross-check, provenance, SQL token checks"),
+ "C08": dict(category="other",
+   text="Decides the orientation agreement of all six functions that walk the 32-level tree (builders, walkers and the verifier) with the contracts' convention, their level ranges, sibling bookkeeping, and that callers pass index and root of one root object. That the proof values recompute the root for all tree contents is an induction over contents and is not decided.",
+   ref="4 C08", technique="static analysis: Merkle-step orientation rule over SSA (bit-test recognition, per-edge operand roles), provenance"),
+ "C09": dict(category="other",
+   text="Decides structural necessary conditions: claim-data literals of both kinds take root, proof, leaf and exit-root fields from the right sources of the same claim and the same proof call; leaf count and root come from one object; leaf-hash and GER layouts match the contract and each other; GER mismatches are rejected before a build. That the proofs obtained verify is not decided (C08 decides orientation only).",
+   ref="4 C09", technique="static analysis: field-map provenance with bound values, symbolic byte-layout extraction, dominance"),
  "C13": dict(category="other",
    text="Decides structural necessary conditions of crash-safe certificate bookkeeping: primary keys computed from the embedded migrations; every storage transaction paired, written through and error-checked; replace-at-height inside one transaction; reconciliation before the first send and refusal on contradictions; the record rebuilt from an Agglayer header field by field; every deciding return of the reconciliation matched with its dominating branch facts against the case table (constant +1 only). The end-to-end crash/restart behaviour is not decided.",
    ref="4 C13", technique="static analysis: DDL reader, transaction-discipline rules, guarded-return case matching, field-map provenance"),
